@@ -783,6 +783,10 @@ struct Outcome {
     restore_checked: bool,
     epilogue_checked: bool,
     drop_ms: u128,
+    /// dispose's bounded wait (1 s per poll) ran out while output was still queued
+    release_timed_out: bool,
+    /// the session failed once and passed when run again (reported as inconclusive)
+    flaky: bool,
     /// situation in which the terminal was released, for the classification of findings
     class: Option<String>,
 }
@@ -1591,8 +1595,39 @@ fn run_session(s: &Session) -> Outcome {
                     before_full.as_ref().map(|w| words_token(w)).unwrap_or("none".into()), after.as_ref().map(|w| words_token(w)).unwrap_or("none".into()));
             }
         }
-        // ---- oracle: epilogue delivered, and delivered before the restore
-        if !hung_up && !stalled && r.out.inconclusive.is_none() {
+        // dispose waits for the answer to its sync request with poll(1 s) and gives up on a time-out: a bounded wait by
+        // design.  When the wait ran out (the last inner poll left through the deadline `break`) while output was still
+        // queued, the emulator did not drain the tty within that second (load, huge backlog): whether the closing
+        // sequence arrives is then a matter of timing, not of the code — inconclusive for the closing-sequence oracles
+        // (the restore of the line settings is judged all the same)
+        let (release_timed_out, queued_at_exit) = {
+            let mut last_seg_break = false;
+            let mut in_seg = false;
+            let mut queued_exit = 0usize;
+            for x in recs.iter() {
+                match x {
+                    Rec::Dispose { step, queued, .. } => {
+                        if *step == "poll" {
+                            in_seg = true;
+                            last_seg_break = false;
+                        } else {
+                            in_seg = false;
+                        }
+                        if *step == "loop_exit" {
+                            queued_exit = *queued;
+                        }
+                    }
+                    Rec::Break if in_seg => last_seg_break = true,
+                    _ => {}
+                }
+            }
+            (last_seg_break, queued_exit)
+        };
+        if release_timed_out && queued_at_exit > 0 {
+            r.out.release_timed_out = true;
+        }
+        // ---- oracle: epilogue delivered
+        if !hung_up && !stalled && r.out.inconclusive.is_none() && !r.out.release_timed_out {
             r.out.epilogue_checked = true;
             let tail = &received[send_before.min(received.len())..];
             // what the closing sequence is FOR, judged on the emulator's side from the bytes it received over the whole
@@ -1620,6 +1655,8 @@ fn run_session(s: &Session) -> Outcome {
         let mut restore_ok = false;
         let mut signals_off = false;
         let mut restore_words: Option<Vec<u32>> = None;
+        let mut queued_before_epilogue = 0usize;
+        let mut epilogue_growth: Option<usize> = None;
         for x in recs.iter() {
             match x {
                 Rec::Dispose { step, queued, events, signals_closed } => {
@@ -1628,10 +1665,14 @@ fn run_session(s: &Session) -> Outcome {
                     }
                     last_state = (*queued, *events);
                     match *step {
+                        "frames_drop" => queued_before_epilogue = *queued,
                         "poll" => seg = Some(Vec::new()),
                         "tcsetattr_ok" => restore_ok = true,
                         // the signals are switched off before the closing sequence is queued
-                        "execute_many" => signals_off = *signals_closed,
+                        "execute_many" => {
+                            signals_off = *signals_closed;
+                            epilogue_growth = Some(queued.saturating_sub(queued_before_epilogue));
+                        }
                         _ => {}
                     }
                 }
@@ -1662,7 +1703,9 @@ fn run_session(s: &Session) -> Outcome {
             log.push("C".into());
             log.push(format!("T{}", words_token(&saved)));
             r.req.push_str(&format!(" x:{}:-:{}:{}", CAPS_TOKEN, if polls.is_empty() { "-".to_string() } else { polls.join("/") }, if restore_ok { 1 } else { 0 }));
-            r.exp.push(format!("{}[{}]q{}e{}", if restore_ok { "ok" } else { "err" }, log.join(","), last_state.0, last_state.1));
+            // `g`: bytes by which execute_many made the queue grow = the complete closing sequence (timing independent)
+            r.exp.push(format!("{}[{}]q{}e{}g{}", if restore_ok { "ok" } else { "err" }, log.join(","), last_state.0, last_state.1,
+                epilogue_growth.map(|g| g.to_string()).unwrap_or("?".into())));
         }
     }
     r.out.wakes = r.wake_times.lock().unwrap().len();
@@ -1941,6 +1984,8 @@ struct Totals {
     restore_checked: u64,
     epilogue_checked: u64,
     traces: u64,
+    release_timed_out: u64,
+    flaky: u64,
 }
 
 /// run one session on a worker thread; a session that hangs altogether is a finding, and the process must go on
@@ -1971,6 +2016,30 @@ fn run_guarded(s: &Session) -> Result<Outcome, String> {
     }
 }
 
+/// Run a session; when it fails, run it again (twice; once after a hang).  Schedules and machine load differ from run to
+/// run while a defect of the code fails every time: only a session that fails EVERY time is reported, otherwise it is
+/// logged as inconclusive (`flaky`).
+fn run_confirmed(s: &Session) -> Result<Outcome, String> {
+    let first = run_guarded(s);
+    let failed = |r: &Result<Outcome, String>| match r { Ok(o) => !o.failures.is_empty(), Err(_) => true };
+    if !failed(&first) {
+        return first;
+    }
+    let reruns = if first.is_err() { 1 } else { 2 };
+    for _ in 0..reruns {
+        let again = run_guarded(s);
+        if !failed(&again) {
+            let mut o = again.unwrap();
+            o.flaky = true;
+            if o.inconclusive.is_none() {
+                o.inconclusive = Some(format!("flaky:{}", match &first { Ok(f) => f.failures[0].0.clone(), Err(e) => e.clone() }));
+            }
+            return Ok(o);
+        }
+    }
+    first
+}
+
 fn report(out: &mut Out, tot: &mut Totals, s: &Session, res: Result<Outcome, String>) -> bool {
     tot.sessions += 1;
     let o = match res {
@@ -1996,6 +2065,11 @@ fn report(out: &mut Out, tot: &mut Totals, s: &Session, res: Result<Outcome, Str
     tot.quits += o.quits;
     tot.restore_checked += o.restore_checked as u64;
     tot.epilogue_checked += o.epilogue_checked as u64;
+    tot.release_timed_out += o.release_timed_out as u64;
+    tot.flaky += o.flaky as u64;
+    if o.release_timed_out {
+        out.hist("inconclusive:release-timed-out-with-output-queued");
+    }
     if let Some(why) = &o.inconclusive {
         tot.inconclusive += 1;
         out.hist(&format!("inconclusive:{}", why.split(':').next().unwrap_or("?")));
@@ -2024,6 +2098,7 @@ fn finish_extra(out: &mut Out, tot: &Totals) {
         "select_interrupted": tot.retries, "wake_calls": tot.wakes, "wake_events": tot.wake_events, "waker_reads_of_more_than_one_byte": tot.coalesced,
         "key_events": tot.keys, "resize_events": tot.resizes, "quit_errors": tot.quits, "restore_checked": tot.restore_checked,
         "epilogue_checked": tot.epilogue_checked, "traces_validated": tot.traces,
+        "releases_timed_out_with_output_queued": tot.release_timed_out, "sessions_failed_once_then_passed": tot.flaky,
         "master_write_retries": MASTER_WRITE_RETRIES.load(Ordering::SeqCst),
         "note": "sampling of thread / kernel schedules on a real pseudo-terminal, not a proof; every timing expectation has 5 s of slack; \
                  sessions that cannot be judged are counted as inconclusive, never as violations",
@@ -2047,7 +2122,7 @@ fn main() {
     verif_harness::silence_panics();
     let mut rng = Rng::new(cfg.seed);
     let mut tot = Totals { sessions: 0, inconclusive: 0, polls: 0, iterations: 0, retries: 0, wakes: 0, wake_events: 0, coalesced: 0, keys: 0,
-        resizes: 0, quits: 0, restore_checked: 0, epilogue_checked: 0, traces: 0 };
+        resizes: 0, quits: 0, restore_checked: 0, epilogue_checked: 0, traces: 0, release_timed_out: 0, flaky: 0 };
     if let Some(v) = cfg.replay.clone() {
         if let Some(s) = Session::from_json(&v["failure"]["input"]) {
             // schedules are not reproducible: try a few times
@@ -2082,7 +2157,7 @@ fn main() {
     }
     let mut hung = 0;
     for s in all.iter() {
-        let r = run_guarded(s);
+        let r = run_confirmed(s);
         if !report(&mut out, &mut tot, s, r) {
             hung += 1;
             if hung >= 2 {
@@ -2097,7 +2172,7 @@ fn main() {
     while hung < 2 && tot.sessions < target && t0.elapsed() < budget && out.failure_count < 8 {
         let s = random_session(&mut rng, idx, cfg.thorough);
         idx += 1;
-        let r = run_guarded(&s);
+        let r = run_confirmed(&s);
         if !report(&mut out, &mut tot, &s, r) {
             hung += 1;
         }
